@@ -1,3 +1,4 @@
+#![allow(dead_code, unused_mut, unused_variables)]
 //! mdv — per-property model-checking drivers for minidump-writer.
 //!
 //!   mdv <Cxx> quick|thorough        explore, write /verif/evidence/<Cxx>.json
@@ -5,7 +6,10 @@
 
 mod checks;
 mod dest;
+mod dump;
 mod idle;
+mod puppet;
+mod shapes;
 
 use mdv_core::report::{load_replay, Report, Tier};
 
